@@ -167,17 +167,27 @@ def guardRefuses (cfg : Cfg) (dels cnt : Nat) : Bool :=
 
 /-! ### execution -/
 
-structure Exec where
+/-- the part of the run state that tasks read and write -/
+structure World where
   dst      : Map DNode
   linkMap  : List (Nat × Path × Nat)      -- source inode group ↦ (first destination path, its inode)
   nextIno  : Nat
+  bytes    : Nat
+deriving Repr
+
+/-- counters, events and the error list (`SyncStats`, the JSON event stream) -/
+structure Book where
   created  : Nat
   updated  : Nat
   skipped  : Nat
   deleted  : Nat
-  bytes    : Nat
   events   : List (Act × Path)            -- reversed
   errors   : List (Act × Path)            -- reversed
+deriving Repr
+
+structure Exec where
+  w : World
+  b : Book
 deriving Repr
 
 /-- `create_dir_all`: every prefix must be a directory or absent (the destination root `[]`
@@ -198,8 +208,8 @@ def parentOf (p : Path) : Path := p.dropLast
 /-- `copy_file` / `sync_file_with_delta` at entry level: the destination node becomes a regular
     file with the source's content, size and mtime; xattrs are stripped and re-applied with -X;
     a symlink at the path is replaced, a directory makes the copy fail -/
-def writeFile (cfg : Cfg) (st : Exec) (p : Path) (m : FileMeta) : Option Exec :=
-  match mkdirAll st.dst (parentOf p) with
+def writeFile (cfg : Cfg) (w : World) (p : Path) (m : FileMeta) : Option World :=
+  match mkdirAll w.dst (parentOf p) with
   | none => none
   | some d =>
     match d.get? p with
@@ -207,79 +217,71 @@ def writeFile (cfg : Cfg) (st : Exec) (p : Path) (m : FileMeta) : Option Exec :=
     | old =>
       let ino := match old with
         | some (.file o) => o.ino            -- rewritten in place or renamed over: a singleton class either way
-        | _ => st.nextIno
+        | _ => w.nextIno
       let node : FileMeta := { content := m.content, size := m.size, mtime := m.mtime,
                                xattrs := if cfg.xattrs then m.xattrs else [], ino := ino }
-      some { st with dst := d.set p (.file node), nextIno := st.nextIno + 1, bytes := st.bytes + m.size }
+      some { w with dst := d.set p (.file node), nextIno := w.nextIno + 1, bytes := w.bytes + m.size }
 
-def writeSymlink (st : Exec) (p : Path) (text : String) : Option Exec :=
-  match mkdirAll st.dst (parentOf p) with
+def writeSymlink (w : World) (p : Path) (text : String) : Option World :=
+  match mkdirAll w.dst (parentOf p) with
   | none => none
   | some d =>
     match d.get? p with
     | some .dir => none
-    | _ => some { st with dst := d.set p (.symlink text) }
+    | _ => some { w with dst := d.set p (.symlink text) }
 
 /-- `create_hardlink(first, dest)`: `link()` fails when the destination path exists -/
-def linkFile (st : Exec) (p first : Path) : Option Exec :=
-  match mkdirAll st.dst (parentOf p) with
+def linkFile (w : World) (p first : Path) : Option World :=
+  match mkdirAll w.dst (parentOf p) with
   | none => none
   | some d =>
     match d.get? p, d.get? first with
-    | none, some (.file fm) => some { st with dst := d.set p (.file fm) }
+    | none, some (.file fm) => some { w with dst := d.set p (.file fm) }
     | _, _ => none
 
-def ok (st : Exec) (t : Task) : Exec :=
-  let st := { st with events := (t.act, t.rel) :: st.events }
+/-- what one task does to the world when run to completion; `none` = the task fails -/
+def perform (cfg : Cfg) (w : World) (t : Task) : Option World :=
   match t.act with
-  | .create => { st with created := st.created + 1 }
-  | .update => { st with updated := st.updated + 1 }
-  | .skip   => { st with skipped := st.skipped + 1 }
-  | .delete => { st with deleted := st.deleted + 1 }
+  | .skip => some w
+  | .delete =>
+    if cfg.dryRun then some w
+    else
+      match w.dst.get? t.rel with
+      | some .dir => some { w with dst := w.dst.eraseSubtree t.rel }
+      | some _ => some { w with dst := w.dst.erase t.rel }
+      | none => some w                       -- already gone with its parent: deleted
+  | act =>                                   -- create / update
+    if cfg.dryRun then some w
+    else
+      match t.payload with
+      | .nothing => some w
+      | .dir => (mkdirAll w.dst t.rel).map fun d => { w with dst := d }
+      | .symlink text => writeSymlink w t.rel text
+      | .file m nlink =>
+        if act = .create && cfg.hardlinks && decide (1 < nlink) then
+          match w.linkMap.find? (·.1 == m.ino) with
+          | some (_, first, _) => linkFile w t.rel first
+          | none =>
+            (writeFile cfg w t.rel m).map fun w' =>
+              let ino := match w'.dst.get? t.rel with | some (.file f) => f.ino | _ => 0
+              { w' with linkMap := (m.ino, t.rel, ino) :: w'.linkMap }
+        else writeFile cfg w t.rel m
 
-def fail (st : Exec) (t : Task) : Exec := { st with errors := (t.act, t.rel) :: st.errors }
+def Book.ok (b : Book) (t : Task) : Book :=
+  let b := { b with events := (t.act, t.rel) :: b.events }
+  match t.act with
+  | .create => { b with created := b.created + 1 }
+  | .update => { b with updated := b.updated + 1 }
+  | .skip   => { b with skipped := b.skipped + 1 }
+  | .delete => { b with deleted := b.deleted + 1 }
+
+def Book.fail (b : Book) (t : Task) : Book := { b with errors := (t.act, t.rel) :: b.errors }
 
 /-- one task of the parallel section, run to completion -/
 def execTask (cfg : Cfg) (st : Exec) (t : Task) : Exec :=
-  match t.act with
-  | .skip => ok st t
-  | .delete =>
-    if cfg.dryRun then ok st t
-    else
-      match st.dst.get? t.rel with
-      | some .dir => ok { st with dst := st.dst.eraseSubtree t.rel } t
-      | some _ => ok { st with dst := st.dst.erase t.rel } t
-      | none => ok st t                      -- already gone with its parent: deleted
-  | act =>                                   -- create / update
-    if cfg.dryRun then ok st t
-    else
-      match t.payload with
-      | .nothing => ok st t
-      | .dir =>
-        match mkdirAll st.dst t.rel with
-        | some d => ok { st with dst := d } t
-        | none => fail st t
-      | .symlink text =>
-        match writeSymlink st t.rel text with
-        | some st' => ok st' t
-        | none => fail st t
-      | .file m nlink =>
-        if act = .create && cfg.hardlinks && decide (1 < nlink) then
-          match st.linkMap.find? (·.1 == m.ino) with
-          | some (_, first, _) =>
-            match linkFile st t.rel first with
-            | some st' => ok st' t
-            | none => fail st t
-          | none =>
-            match writeFile cfg st t.rel m with
-            | some st' =>
-              let ino := match st'.dst.get? t.rel with | some (.file f) => f.ino | _ => 0
-              ok { st' with linkMap := (m.ino, t.rel, ino) :: st'.linkMap } t
-            | none => fail st t
-        else
-          match writeFile cfg st t.rel m with
-          | some st' => ok st' t
-          | none => fail st t
+  match perform cfg st.w t with
+  | some w' => ⟨w', st.b.ok t⟩
+  | none => ⟨st.w, st.b.fail t⟩
 
 structure Result where
   refused  : Bool
@@ -297,8 +299,8 @@ structure Result where
 deriving Repr
 
 def initExec (dst : Map DNode) (nextIno : Nat) : Exec :=
-  { dst := dst, linkMap := [], nextIno := nextIno, created := 0, updated := 0, skipped := 0,
-    deleted := 0, bytes := 0, events := [], errors := [] }
+  { w := { dst := dst, linkMap := [], nextIno := nextIno, bytes := 0 },
+    b := { created := 0, updated := 0, skipped := 0, deleted := 0, events := [], errors := [] } }
 
 def plan (cfg : Cfg) (scan : List SEntry) (dst : Map DNode) : List Task :=
   let filtered := scanFilter cfg scan
@@ -314,10 +316,10 @@ def run (cfg : Cfg) (scan : List SEntry) (dst : Map DNode) (nextIno : Nat) : Res
       skipped := 0, deleted := 0, bytes := 0, events := [], errors := [], exit := 1 }
   else
     let st := tasks.foldl (execTask cfg) (initExec dst nextIno)
-    let aborted := decide (0 < cfg.maxErrors) && decide (cfg.maxErrors ≤ st.errors.length)
-    { refused := false, aborted := aborted, dst := st.dst, tasks := tasks,
-      created := st.created, updated := st.updated, skipped := st.skipped, deleted := st.deleted,
-      bytes := st.bytes, events := st.events.reverse, errors := st.errors.reverse,
-      exit := if st.errors.isEmpty then 0 else 1 }
+    let aborted := decide (0 < cfg.maxErrors) && decide (cfg.maxErrors ≤ st.b.errors.length)
+    { refused := false, aborted := aborted, dst := st.w.dst, tasks := tasks,
+      created := st.b.created, updated := st.b.updated, skipped := st.b.skipped, deleted := st.b.deleted,
+      bytes := st.w.bytes, events := st.b.events.reverse, errors := st.b.errors.reverse,
+      exit := if st.b.errors.isEmpty then 0 else 1 }
 
 end SyModel.Engine
